@@ -582,7 +582,7 @@ Definition cmd_rev_parse (args : list bytes) : M (list bytes) :=
      match l with
      | [] => ret []
      | a :: r =>
-         let name := if bytes_eqb (map lower a) (str "head"%string) then w_head w else a in
+         let name := if bytes_eqb a (str "HEAD"%string) then w_head w else a in
          id <- of_opt (am_get (w_refs w) name) ;;
          rest <- go r ;; ret (hex id :: rest)
      end) args.
